@@ -753,6 +753,7 @@ func runC17(c *Ctx) {
 		}
 		c.Analysed(fnName(cur))
 		okClone := false
+		dbg := ""
 		instrs(cur, func(in ssa.Instruction) {
 			if r, ok := in.(*ssa.Return); ok && len(r.Results) == 1 {
 				v := r.Results[0]
@@ -776,7 +777,38 @@ func runC17(c *Ctx) {
 				}
 			}
 		})
-		c.Check(okClone, "C17.readonly", fnName(cur), "Current returns a clone", P.Pos(cur.Pos()), "")
+		if !okClone {
+			// ... or through a lock-scoping helper handed a closure (locked(&c.mu, func() T {...})): decided on paths
+			e := &PPA{MaxVisits: 2}
+			e.Run(cur)
+			c.Paths += len(e.Paths)
+			n, all := 0, true
+			for i := range e.Paths {
+				p := &e.Paths[i]
+				if p.End != "return" || len(p.Rets) != 1 {
+					continue
+				}
+				n++
+				v := p.Rets[0].V
+				for {
+					if ta, ok := v.(*ssa.TypeAssert); ok {
+						v = ta.X
+						continue
+					}
+					break
+				}
+				if call, ok := v.(*ssa.Call); !ok || calleeName(&call.Call) != "google.golang.org/protobuf/proto.Clone" {
+					all = false
+				}
+			}
+			okClone = n > 0 && all && !e.Overflow
+			if !okClone {
+				for i := range e.Paths {
+					dbg += e.Paths[i].String() + " || "
+				}
+			}
+		}
+		c.Check(okClone, "C17.readonly", fnName(cur), "Current returns a clone", P.Pos(cur.Pos()), dbg)
 	}
 }
 
